@@ -39,6 +39,7 @@ type LeakyBucketPacer struct {
 	done  chan struct{}
 
 	closeOnce sync.Once
+	wg        sync.WaitGroup
 
 	ssrcToWriter map[uint32]interceptor.RTPWriter
 	writerLock   sync.RWMutex
@@ -71,7 +72,11 @@ func newLeakyBucketPacer(initialBitrate int, loggerFactory logging.LoggerFactory
 		},
 	}
 
-	go pacer.Run()
+	pacer.wg.Add(1)
+	go func() {
+		defer pacer.wg.Done()
+		pacer.Run()
+	}()
 
 	return pacer
 }
@@ -186,6 +191,8 @@ func (p *LeakyBucketPacer) Run() {
 // Close closes the LeakyBucketPacer.
 func (p *LeakyBucketPacer) Close() error {
 	p.closeOnce.Do(func() { close(p.done) })
+	// wait for the pacer goroutine: nothing may be written to a stream's writer once Close has returned
+	p.wg.Wait()
 
 	return nil
 }
